@@ -84,6 +84,16 @@ def integrate_instances(tier, prop):
                 else:
                     out.append(dict(id="e2e-euler-a%g-d%d-%s" % (al, direction, "dense" if dense else "nodense"), kind="e2e", family="euler", alpha=al,
                                     dense=dense, direction=direction, budget=b))
+    if prop == "C08":
+        # three steps with dense_output=False: from the third step on the interpolants of old steps have been pruned
+        out.append(dict(id="integrate-euler-n-nodense-N3", kind="integrate", family="euler", events=["n"], dense=False, N=3, max_reports=2, budget=b))
+    if prop in ("C08", "C09"):
+        # the event search of one step raises, integrate() is simply called again: the step must be examined after all
+        evs = "n" if prop == "C08" else "T"
+        for k in ((1,) if quick else (0, 1, 2)):
+            for dense in (True, False):
+                out.append(dict(id="integrate-euler-%s-%s-N2-detector-fault%d" % (evs, "dense" if dense else "nodense", k), kind="integrate", family="euler",
+                                events=[evs], dense=dense, N=2, max_reports=2, fault_call=k, budget=b))
     if prop == "C09":
         out.append(dict(id="integrate-euler-T-infinite-tf", kind="integrate", family="euler", events=["T"], dense=True, N=2, infinite_tf=True, max_reports=2, budget=b))
     return out
